@@ -368,6 +368,12 @@ func goJSON(v cty.Value) (any, bool) {
 		if abs.Cmp(big.NewFloat(1e-6)) < 0 || abs.Cmp(big.NewFloat(1e21)) >= 0 || bf.Prec() > 64 {
 			return nil, false
 		}
+		if n.IsWhole() {
+			// a whole number beyond int64 held at a narrow precision (float64(2^63)): its shortest
+			// identifying text (9223372036854776000) denotes ANOTHER integer; whole numbers compare
+			// exactly, so the JSON text must be the integer itself (json.Marshal since fix b1d72a1)
+			return json.Number(n.R.Num().String()), true
+		}
 		return json.Number(bf.Text('f', -1)), true
 	case ty.IsSetType() && v.LengthInt() > 1:
 		return nil, false
